@@ -80,6 +80,12 @@ enum sim_origin {
 	ORG_V4_REMOTE,
 	ORG_UNIX_UNNAMED,
 	ORG_UNIX_ABSTRACT_ADV, /* AF_UNIX with an abstract name whose bytes imitate ::1 at the in6 offset */
+	/* IPv6 near misses of the two loopback forms: none of them is a loopback address */
+	ORG_V6_SUFFIX_127,     /* fd00::7f00:1 - ends like ::ffff:127.0.0.1 without the mapped prefix */
+	ORG_V6_PREFIXED_MAPPED, /* 1:2:3:4:5:ffff:7f00:1 - ffff and 127.0.0.1 in place, the first 80 bits not zero */
+	ORG_V6_COMPAT_127,     /* ::127.0.0.1 (IPv4-compatible form, no ffff) */
+	ORG_V6_HIGH_1,         /* 8000::1 - ends like ::1 */
+	ORG_V6_UNSPECIFIED,    /* :: */
 	ORG_COUNT
 };
 enum sim_reset_how { RST_EPOLL = 0, RST_READ = 1, RST_WRITE = 2 };
